@@ -526,7 +526,12 @@ def collect_variable_lookup(
                 len(closure_cells), len(freevars))
 
         for cell, freevar in zip(closure_cells, freevars):
-            closure_dict[freevar] = cell.cell_contents
+            try:
+                closure_dict[freevar] = cell.cell_contents
+            except ValueError:
+                # The cell is empty: the variable of the enclosing function has not been assigned yet (or has been
+                # deleted). The condition could still be evaluated if it did not need to read the variable.
+                pass
 
     variable_lookup.append(closure_dict)
 
